@@ -2227,6 +2227,9 @@ def m_vec_resize(it, callee, args, m):
 
 IT = r"(?:<.* as (?:Iterator|DoubleEndedIterator|ExactSizeIterator|IntoIterator)>|Iterator|DoubleEndedIterator)"
 MODELS = [
+    (r"^<(u8|u16|u32|u64|usize) as From<bool>>::from$", lambda it, c, a, m: Int(z3.If(a[0], z3.BitVecVal(1, {"u8": 8, "u16": 16, "u32": 32}.get(m.group(1), 64)), z3.BitVecVal(0, {"u8": 8, "u16": 16, "u32": 32}.get(m.group(1), 64))), {"u8": 8, "u16": 16, "u32": 32}.get(m.group(1), 64), False)),
+    (r"^core::num::<impl (u8|u16|u32|u64|usize)>::rotate_left$", lambda it, c, a, m: Int(z3.RotateLeft(a[0].t, z3.ZeroExt(a[0].bits - 32, a[1].t) if a[1].bits < a[0].bits else z3.Extract(a[0].bits - 1, 0, a[1].t)), a[0].bits, False)),
+    (r"^core::num::<impl (u8|u16|u32|u64|usize)>::rotate_right$", lambda it, c, a, m: Int(z3.RotateRight(a[0].t, z3.ZeroExt(a[0].bits - 32, a[1].t) if a[1].bits < a[0].bits else z3.Extract(a[0].bits - 1, 0, a[1].t)), a[0].bits, False)),
     (r"^core::slice::<impl \[.*\]>::chunks(_exact)?$", m_slice_chunks),
     (r"^(std::|alloc::)?slice::<impl \[(std::string::)?String\]>::join::<&str>$", m_str_join),
     (r"^(core|std|alloc)::str::<impl str>::lines$", m_str_lines),
